@@ -198,12 +198,16 @@ class C02(core.Check):
     level_note = ("Trusted: Coq kernel; the hand-written model Model/Canvas.v (validated on every run against canvas.py by the exact "
                   "correspondence on content, cols/rows, coords AND the internal shards tuples, not proved against Python); "
                   "ExtrOcamlBasic extraction + OCaml driver; the harness encoding of a TextCanvas as rows of cells (runs aligned "
-                  "to character cells, UTF-8, fixed width alphabet); the Python grid oracle.")
+                  "to character cells, UTF-8 or a double-byte encoding, fixed width alphabet); the Python grid oracle.")
     rule = ("cases = random trees (depth <= 6) of canvas operations (CanvasCombine, CanvasJoin with padding, CanvasOverlay, "
             "CompositeCanvas wrap, pad_trim_left_right, pad_trim_top_bottom, trim, trim_end, fill_attr_apply, set cursor / pop-up, "
             "finalize) over text leaves (double-width and zero-width characters, run-length attribute and charset lists split in "
-            "three ways, short rows, cursors) and solid leaves, with shared operands; systematic families (all pad/trim amounts, all "
-            "overlay offsets over rows with double-width characters); same-size pairs for content_delta; a malformed stream "
+            "three ways, short rows, cursors) and solid leaves, with shared operands; one case in five is written in a double-byte "
+            "encoding (big5, gbk, uhc, euc-kr, gb2312, euc-jp) instead of UTF-8; attribute maps range over ordinary attributes, None and "
+            "the falsy attributes 0 and '' as keys and targets, with fills over already filled canvases; systematic families (all "
+            "pad/trim amounts, all overlay offsets over rows with double-width characters, the same windows and offsets in every "
+            "double-byte encoding over double-width characters of every trail-byte class, every pair of single-entry attribute maps "
+            "applied one after the other); same-size pairs for content_delta; a malformed stream "
             "(out-of-range amounts, unequal widths) judged by the correspondence only. non-trivial = at least one composite "
             "operation evaluated; distinct by hash of (case, outcome)")
     trusted_base = [
@@ -215,11 +219,14 @@ class C02(core.Check):
         "Python grid oracle and wire encode/decode in harness/props/c02.py",
     ]
     assumptions = [
-        "UTF-8 encoding; characters from a fixed alphabet of narrow, double-width and zero-width code points",
+        "encodings: UTF-8 (fixed alphabet of narrow, double-width and zero-width code points) and the double-byte encodings big5, gbk, "
+        "uhc, euc-kr, gb2312, euc-jp (narrow = ASCII incl. characters of the trail-byte range, double-width = two-byte characters with "
+        "one representative per boundary of the codec's trail-byte ranges; three-byte EUC-JP and half-width katakana not used)",
         "attribute / charset runs of leaf text canvases end on character-cell boundaries; a row does not start with a zero-width character",
         "operations are applied where they are defined (positive sizes, equal widths for stacking, overlay inside the bottom canvas, "
         "join widths >= canvas widths); outside, only model-vs-implementation agreement is checked",
-        "attribute keys are hashable constants (modelled as integers); attribute maps are compared as dicts",
+        "attribute keys are hashable constants (modelled as integers; None, the integer 0 and the empty string are among the "
+        "attributes used, as cell attributes, map keys and map targets); attribute maps are compared as dicts",
         "object identity of leaf canvases (cv[5] is other_cv[5]) is an integer id; equal ids denote the same canvas (premise ids_ok of the delta theorem)",
         "shortcuts and children lists, widget_info contents and the CanvasCache are not modelled",
         "canvas objects themselves are handles: a mutating method is never applied directly to a bound canvas (the generator wraps first), only list objects are heap objects",
@@ -934,6 +941,24 @@ class C02(core.Check):
                 dist[kk] = dist.get(kk, 0) + 1
         if case.get("malformed"):
             dist["malformed-stream"] = dist.get("malformed-stream", 0) + 1
+        dist["enc:" + case.get("enc", "utf-8")] = dist.get("enc:" + case.get("enc", "utf-8"), 0) + 1
+
+        def fills(t, over):
+            """fill over a canvas that already carries a map; fill with a falsy target"""
+            if t[0] in ("leaf", "ref"):
+                return
+            if t[0] == "fill":
+                if over.get("inner"):
+                    dist["fill-over-fill"] = dist.get("fill-over-fill", 0) + 1
+                if any(b in (0, 8, 9) for _, b in t[2]):
+                    dist["fill-to-falsy"] = dist.get("fill-to-falsy", 0) + 1
+            for s in ([x for x in t[1]] if t[0] == "combine" else [x for x, _ in t[1]] if t[0] == "join"
+                      else [t[1], t[2]] if t[0] == "overlay" else [t[1]]):
+                fills(s, over)
+            if t[0] == "fill":
+                over["inner"] = True
+        for t in case["defs"]:
+            fills(t, {})
         # a cut double-width character shows up as a space that the leaves do not contain at that place:
         # count the cases in which the grid evaluator produced a wildcard-charset cell
         try:
